@@ -3,6 +3,7 @@ package headers
 import (
 	"errors"
 	"fmt"
+	"math"
 	"strconv"
 	"strings"
 )
@@ -44,7 +45,12 @@ func parseRangeNumber(numStr string) (num int64, endIndex int64, ok bool) {
 			return num, index, true
 		}
 
-		num = num*10 + int64(ch-'0')
+		digit := int64(ch - '0')
+		if num > (math.MaxInt64-digit)/10 {
+			// The value does not fit in an int64
+			return 0, 0, false
+		}
+		num = num*10 + digit
 		index++
 	}
 
@@ -69,6 +75,10 @@ func parseRangeHeader(rangeStr string) (rangeHeader, error) {
 
 	if unit != "bytes" {
 		return rangeHeader{}, ErrInvalidRangeUnit
+	}
+
+	if valuesStr == "" {
+		return rangeHeader{}, ErrInvalidRangeValue
 	}
 
 	firstCh := valuesStr[0]
@@ -96,8 +106,7 @@ func parseRangeHeader(rangeStr string) (rangeHeader, error) {
 		return rangeHeader{}, ErrInvalidRangeValue
 	}
 
-	middleCh := valuesStr[startTail]
-	if middleCh != '-' {
+	if startTail >= int64(len(valuesStr)) || valuesStr[startTail] != '-' {
 		return rangeHeader{}, ErrInvalidRangeFormat
 	}
 
